@@ -20,7 +20,10 @@ EXPLANATION = (
     "(no cache). R20.4: q is stored as a 0-dimensional value. R20.5: the "
     "keys the loader reads from the UQ block exist in every shipped uq.yaml, "
     "the matrix is stored as read, and the keys the estimator reads are the "
-    "keys the loader writes.")
+    "keys the loader writes. D20.6: basis labels distinct and naming "
+    "entries, matrix square/sized/symmetric/PSD, RMSE valid wherever a basis "
+    "entry is, and at least three shipped libraries reach an uncertainty "
+    "block.")
 NOT_DECIDED = "numeric values; positive-definiteness of computed forms"
 ASSUMPTIONS = ["numpy dot/transpose/sqrt/square semantics",
                "list.index raises ValueError for a missing element"]
